@@ -43,6 +43,40 @@ TIE_A += ["code:fuzzylite.engine.Engine.configure", "code:fuzzylite.importer.Fll
 # the importer's factory look-ups (theorems `code_importTnorm` / `code_importSnorm`; the callee is tied in C17)
 TIE_A += ["code:fuzzylite.importer.FllImporter.tnorm", "code:fuzzylite.importer.FllImporter.snorm",
           "code:fuzzylite.factory.ConstructionFactory.construct"]
+
+# fifth wave: constructors, `parameters`, `configure` of the shape classes of term.py and of the activation methods (theorems
+# `code_<class>Init / Parameters / Configure`, `configure_parameters_<class>` of Props/C14.lean)
+TIE_A += [
+    "code:fuzzylite.term.Arc.__init__", "code:fuzzylite.term.Arc.parameters", "code:fuzzylite.term.Arc.configure",
+    "code:fuzzylite.term.Bell.__init__", "code:fuzzylite.term.Bell.parameters", "code:fuzzylite.term.Bell.configure",
+    "code:fuzzylite.term.Binary.__init__", "code:fuzzylite.term.Binary.parameters", "code:fuzzylite.term.Binary.configure",
+    "code:fuzzylite.term.Concave.__init__", "code:fuzzylite.term.Concave.parameters", "code:fuzzylite.term.Concave.configure",
+    "code:fuzzylite.term.Cosine.__init__", "code:fuzzylite.term.Cosine.parameters", "code:fuzzylite.term.Cosine.configure",
+    "code:fuzzylite.term.Gaussian.__init__", "code:fuzzylite.term.Gaussian.parameters", "code:fuzzylite.term.Gaussian.configure",
+    "code:fuzzylite.term.GaussianProduct.__init__", "code:fuzzylite.term.GaussianProduct.parameters",
+    "code:fuzzylite.term.GaussianProduct.configure", "code:fuzzylite.term.PiShape.__init__",
+    "code:fuzzylite.term.PiShape.parameters", "code:fuzzylite.term.PiShape.configure", "code:fuzzylite.term.Ramp.__init__",
+    "code:fuzzylite.term.Ramp.parameters", "code:fuzzylite.term.Ramp.configure", "code:fuzzylite.term.Rectangle.__init__",
+    "code:fuzzylite.term.Rectangle.parameters", "code:fuzzylite.term.Rectangle.configure",
+    "code:fuzzylite.term.SemiEllipse.__init__", "code:fuzzylite.term.SemiEllipse.parameters",
+    "code:fuzzylite.term.SemiEllipse.configure", "code:fuzzylite.term.Sigmoid.__init__",
+    "code:fuzzylite.term.Sigmoid.parameters", "code:fuzzylite.term.Sigmoid.configure",
+    "code:fuzzylite.term.SigmoidDifference.__init__", "code:fuzzylite.term.SigmoidDifference.parameters",
+    "code:fuzzylite.term.SigmoidDifference.configure", "code:fuzzylite.term.SigmoidProduct.__init__",
+    "code:fuzzylite.term.SigmoidProduct.parameters", "code:fuzzylite.term.SigmoidProduct.configure",
+    "code:fuzzylite.term.Spike.__init__", "code:fuzzylite.term.Spike.parameters", "code:fuzzylite.term.Spike.configure",
+    "code:fuzzylite.term.SShape.__init__", "code:fuzzylite.term.SShape.parameters", "code:fuzzylite.term.SShape.configure",
+    "code:fuzzylite.term.Trapezoid.__init__", "code:fuzzylite.term.Trapezoid.parameters",
+    "code:fuzzylite.term.Triangle.__init__", "code:fuzzylite.term.ZShape.__init__", "code:fuzzylite.term.ZShape.parameters",
+    "code:fuzzylite.term.ZShape.configure", "code:fuzzylite.activation.First.__init__",
+    "code:fuzzylite.activation.First.parameters", "code:fuzzylite.activation.First.configure",
+    "code:fuzzylite.activation.Last.__init__", "code:fuzzylite.activation.Last.parameters",
+    "code:fuzzylite.activation.Last.configure", "code:fuzzylite.activation.Highest.__init__",
+    "code:fuzzylite.activation.Highest.parameters", "code:fuzzylite.activation.Highest.configure",
+    "code:fuzzylite.activation.Lowest.__init__", "code:fuzzylite.activation.Lowest.parameters",
+    "code:fuzzylite.activation.Lowest.configure", "code:fuzzylite.activation.Threshold.__init__",
+    "code:fuzzylite.activation.Threshold.parameters", "code:fuzzylite.activation.Threshold.configure",
+]
 RULE = ("generated engines over every registered term class (incl. Discrete, Linear, Function, Constant), norm, defuzzifier "
         "(resolution / type), activation method (parameters), descriptions, disabled variables / blocks, heights and weights "
         "(1 | far from 1 | inside the tolerance | around the rounding boundary of the printed form), infinite / NaN ranges, NaN / "
